@@ -227,6 +227,12 @@ func (s *sim) opRegister(skip bool) {
 	win := windows[r.Weighted([]int{8, 4, 3, 2, 2, 1, 2, 2, 2, 2, 2}, "reg.window")]
 	eku := r.Weighted([]int{10, 3, 3, 1, 2}, "reg.eku")
 	alg := r.Weighted([]int{5, 1}, "reg.alg")
+	firstCN := ""
+	if r.Bool(8, "reg.double-cn") {
+		if v := s.victimOf(owner); v != owner {
+			firstCN = v.Bech // two commonName attributes: the victim's first, the owner's own last
+		}
+	}
 	if skip {
 		return
 	}
@@ -235,7 +241,13 @@ func (s *sim) opRegister(skip bool) {
 	r.Count("op:register")
 	now := time.Now()
 	key := newKey(alg)
-	der, cert := makeCert(certSpec{cn: owner.Bech, serial: serial, nbf: now.Add(win.nbf), naf: now.Add(win.naf), eku: eku}, key)
+	der, cert := makeCert(certSpec{cn: owner.Bech, serial: serial, nbf: now.Add(win.nbf), naf: now.Add(win.naf), eku: eku, firstCN: firstCN}, key)
+	if firstCN != "" {
+		if cert.Subject.CommonName != owner.Bech {
+			panic("gwsim: a subject with two commonName attributes must parse to the last one")
+		}
+		r.Count("probe:double-cn-certificate")
+	}
 	msg := &ctypes.MsgCreateCertificate{Owner: owner.Bech, Cert: certPEM(der), Pubkey: pubPEM(key)}
 	ok, outcome := s.deliver(msg, owner)
 	idx := -1
@@ -260,7 +272,8 @@ func (s *sim) opRegister(skip bool) {
 	} else {
 		r.Count("probe:registration-rejected")
 	}
-	r.Logf("%s h=%d register cert#%d owner=%s serial=%s window=%s eku=%s key=%s -> %s", s.clock(), s.w.Height, idx, owner.Name, serial, win.name, ekuNames[eku], algNames[alg], outcome)
+	r.Logf("%s h=%d register cert#%d owner=%s serial=%s window=%s eku=%s key=%s%s -> %s", s.clock(), s.w.Height, idx, owner.Name, serial, win.name, ekuNames[eku], algNames[alg],
+		tern(firstCN != "", " subject=CN="+s.name(firstCN)+",CN="+owner.Name, ""), outcome)
 	r.Abstract("register|" + fmt.Sprint(ok) + "|" + s.abstractState())
 }
 
